@@ -754,6 +754,9 @@ impl<'t> Gen<'t> {
                 let k2 = names.next(self.t);
                 let p = self.pieces(&format!("{tag}:{k}.{k2}"), 0, rich);
                 Value::Sub(vec![(k2, Value::Str(p))])
+            } else if self.t.chance(1, 4) {
+                // a surplus key may hold `null` (a key removed from the default locale only): still surplus
+                Value::Null
             } else {
                 Value::Str(self.pieces(&format!("{tag}:{k}"), 0, rich))
             };
@@ -804,6 +807,8 @@ impl<'t> Gen<'t> {
                     if self.t.chance(1, 4) {
                         let k2 = names.next(self.t);
                         o.push((k, Value::Sub(vec![(k2, Value::Str(p))])));
+                    } else if self.t.chance(1, 4) {
+                        o.push((k, Value::Null));
                     } else {
                         o.push((k, Value::Str(p)));
                     }
@@ -1039,15 +1044,54 @@ impl<'t> Gen<'t> {
                         args.push(("count".into(), Arg::Str(vec![self.var_piece(&nv)])));
                     }
                     _ => {
-                        let n = if r.ty.is_float() {
-                            Arg::F(self.float_val(r.ty))
+                        // two times in three the literal count sits on or next to a bound of the referenced range
+                        // (the parse-time selection must agree with the run-time one exactly there)
+                        let specs: Vec<&CountSpec> = r.branches.iter().flat_map(|b| b.specs.iter()).collect();
+                        let probes = crate::sem::range_probe_counts(&specs, r.ty);
+                        let mut exact_bounds: Vec<Num> = vec![];
+                        for sp in &specs {
+                            match sp {
+                                CountSpec::Exact { v, .. } => exact_bounds.push(*v),
+                                CountSpec::Bounds { start, end } => {
+                                    if let Some(s) = start {
+                                        exact_bounds.push(*s);
+                                    }
+                                    if let Some((e, _)) = end {
+                                        exact_bounds.push(*e);
+                                    }
+                                }
+                            }
+                        }
+                        // whole numbers written as integer tokens on float ranges are passed as floats here
+                        let exact_bounds: Vec<Num> = exact_bounds.into_iter().map(|b| if r.ty.is_float() { Num::Float(b.as_f64()) } else { b }).collect();
+                        let near_bound = if !exact_bounds.is_empty() && self.t.chance(1, 2) {
+                            Some(exact_bounds[self.t.pick(exact_bounds.len())])
+                        } else if !probes.is_empty() && self.t.chance(2, 3) {
+                            Some(probes[self.t.pick(probes.len())])
                         } else {
-                            let (lo, hi) = r.ty.min_max();
-                            let v = self.int_in(lo.max(i64::MIN as i128), hi.min(u64::MAX as i128));
-                            if v < 0 {
-                                Arg::I(v as i64)
-                            } else {
-                                Arg::U(v as u64)
+                            None
+                        };
+                        let n = match near_bound {
+                            Some(Num::Float(f)) => Arg::F(f),
+                            Some(Num::Int(v)) if v >= i64::MIN as i128 && v <= u64::MAX as i128 => {
+                                if v < 0 {
+                                    Arg::I(v as i64)
+                                } else {
+                                    Arg::U(v as u64)
+                                }
+                            }
+                            _ => {
+                                if r.ty.is_float() {
+                                    Arg::F(self.float_val(r.ty))
+                                } else {
+                                    let (lo, hi) = r.ty.min_max();
+                                    let v = self.int_in(lo.max(i64::MIN as i128), hi.min(u64::MAX as i128));
+                                    if v < 0 {
+                                        Arg::I(v as i64)
+                                    } else {
+                                        Arg::U(v as u64)
+                                    }
+                                }
                             }
                         };
                         args.push(("count".into(), n));
@@ -1120,6 +1164,52 @@ impl NameSrc {
 // C03: the enumerated 4-locale domain as one project per inherits map
 
 pub const C03_LOCALES: [&str; 4] = ["en", "fr", "de", "es"];
+
+/// C08 on the enumerated 4-locale domain: as `c06_project_for_map`, but every locale names its variables
+/// and components after itself (`name_fr`, `<b_fr>`), so that the member set a key requires tells from
+/// which locale each value was taken; references with a `name` argument are left out.
+pub fn c08_project_for_map(map: [usize; 3]) -> Project {
+    let mut p = c06_project_for_map(map);
+    fn rename(pieces: &mut Vec<Piece>, loc: &str) {
+        let suffix = loc.replace('-', "_");
+        for x in pieces.iter_mut() {
+            match x {
+                Piece::Var { name, .. } if name != "count" => *name = format!("{name}_{suffix}"),
+                Piece::Comp { name, children, .. } => {
+                    *name = format!("{name}_{suffix}");
+                    rename(children, loc);
+                }
+                _ => {}
+            }
+        }
+    }
+    fn walk(o: &mut Obj, loc: &str) {
+        o.retain(|(k, _)| !k.starts_with("rb"));
+        for (_, v) in o.iter_mut() {
+            match v {
+                Value::Str(pc) => {
+                    rename(pc, loc);
+                    // one component per interpolated value, named after the locale as well
+                    if pc.iter().any(|x| matches!(x, Piece::Var { .. })) {
+                        pc.push(Piece::Comp {
+                            name: format!("b_{}", loc.replace('-', "_")),
+                            ws: [String::new(), String::new(), String::new(), String::new()],
+                            children: vec![Piece::Text("!".into())],
+                        });
+                    }
+                }
+                Value::Range(r) => r.branches.iter_mut().for_each(|b| rename(&mut b.body, loc)),
+                Value::Plural(pl) => pl.forms.iter_mut().for_each(|(_, b)| rename(b, loc)),
+                Value::Sub(inner) => walk(inner, loc),
+                _ => {}
+            }
+        }
+    }
+    for ((_, loc), obj) in p.files.iter_mut() {
+        walk(obj, loc);
+    }
+    p
+}
 
 /// C06 on the enumerated 4-locale domain: the C03 project of an inherits map (every presence pattern of
 /// every key kind) plus, per presence pattern, keys that *reference* those targets: plain, with a string
